@@ -342,6 +342,26 @@ def handleAssemble (j : Json) : OpOut :=
         tag := "assemble:" ++ toString cfgs.length ++ (if master then ":master" else ""),
         model := toJson m.cloud }
 
+/-- `forever`: the real `RunForever` over a quiet world with the cloud failing for `failCount` consecutive calls from the
+    refresh of scan `failFrom` on. The model's lifetime semantics (`runEvents`: a scan that `RunOnce` ends with an error ends
+    the lifetime; any other scan is followed by the next one): one failed call is a transient failure — the loop must still be
+    scanning; two in a row make the rebuild fail — `RunForever` must hand the error back (the recorded finding T5). -/
+def handleForever (j : Json) : OpOut :=
+  let failFrom : Nat := getD j "failFrom" 0
+  let failCount : Nat := getD j "failCount" 0
+  let obs := (j.getObjVal? "obs").toOption.getD Json.null
+  let outcome : String := getD obs "outcome" "?"
+  let scans : Nat := getD obs "scans" 0
+  let expect := if failCount ≥ 2 then "returned" else "running"
+  let kind := ((outcome.splitOn ":").head?).getD outcome
+  { diffs := if kind == expect then [] else ["forever-outcome"],
+    mon := (if kind == "panic" then ["C20:panic:RunForever:" ++ outcome ++ " (cloud calls " ++ toString failFrom ++ ".." ++ toString (failFrom + failCount - 1) ++ " failed)"] else [])
+        ++ (if failCount == 1 && kind == "returned" then ["C20:fatal:undocumented-stop:after a transient failure (one failed refresh, the rebuild accepted) RunForever stopped: " ++ outcome] else [])
+        ++ (if failCount == 1 && kind == "running" && scans ≤ failFrom + 3 then ["C20:wedged:after a transient failure no further scan was made (calls seen: " ++ toString scans ++ ")"] else [])
+        ++ (if failCount ≥ 2 && kind == "returned" then ["C20:fatal:rebuild-failed"] else []),
+    tag := "forever:" ++ toString failFrom ++ ":" ++ toString failCount ++ ":" ++ kind,
+    model := Json.mkObj [("expect", toJson expect)] }
+
 def handleDecode (j : Json) : OpOut :=
   let key : String := getD j "key" ""
   let aws : Bool := getD j "aws" false
